@@ -13,6 +13,8 @@
     c13.rename <preserve> <n> (<plen> <key>… <name>)… <JTree> | ok <JTree>
     c13.move allow <tlen> <key>… <nf> (<plen> <key>…)… <JTree> | ok <JTree>
     c13.move block <target key> <nb> <key>… <JTree> | ok <JTree>
+    c13.mrule <isOr> <nRules> (<mode> <ci> <invert> <nVals> <value>…)… <data> <nLower> (<bytes> <lowered>)… | ok 0|1
+        a mask's match rules through mask.Do, model = Model/MatchRule.lean (layout of c20.mr)
     c13.tok <mask 1..63> <data hex> | ok <hex>   hash normalizer with the by-bytes patterns of mask
     c13.utf8 <n> <src hex>×n | ok <hex>×n      (n fields of one event)
 -/
@@ -22,6 +24,8 @@ import FileD.Model.Act.Subst
 import FileD.Model.Act.Utf8Bytes
 import FileD.Model.Act.HashTok
 import FileD.Model.Act.Fields
+import FileD.Model.MatchRule
+import FileD.Drv.C20
 import FileD.Prelude.JTree
 namespace FileD.DrvC13
 open FileD Tok
@@ -183,6 +187,29 @@ def handleMove (args impl : List String) : Option (String × String) :=
     pure (treeTok (Act.Fields.moveBlock tkey blocked tree), okTok (SpecC13.coreOk impl))
   | _ => none
 
+/-- c13.mrule: a mask's match rules (cfg/matchrule) through mask.Do; same layout as c20.mr, the
+    model is Model/MatchRule.lean with the (bytes, lowered) table as the `bytes.ToLower` oracle -/
+def handleMrule (args impl : List String) : Option (String × String) :=
+  match args with
+  | isOr :: nr :: rest => do
+    let isOr ← bool? isOr
+    let n ← nat? nr
+    let (rules, r1) ← DrvC20.parseRules n rest
+    match r1 with
+    | data :: nl :: r2 =>
+      let raw ← bytes? data
+      let k ← nat? nl
+      let (tbl, r3) ← DrvC20.parsePairs k r2
+      if r3 ≠ [] then none
+      let lower : Bytes → Bytes := fun b => match DrvC20.lookupLower tbl b with | some l => l | none => b
+      let m := if !(rules.all (DrvC20.lowerCovered tbl · raw)) then "oracle-miss" else
+        match MatchRule.rsMatch lower isOr rules raw with
+        | .ok b => "ok " ++ ofBool b
+        | .error p => panicTok p
+      pure (m, okTok (SpecC13.coreOk impl))
+    | _ => none
+  | _ => none
+
 def handle (cmd : String) (args impl : List String) : Option (String × String) :=
   if cmd = "c13.act" then
     some (unwords impl, okTok (SpecC13.actOk impl))
@@ -193,6 +220,7 @@ def handle (cmd : String) (args impl : List String) : Option (String × String) 
   else if cmd = "c13.subst" then handleSubst args impl
   else if cmd = "c13.utf8" then handleUtf8 args impl
   else if cmd = "c13.tok" then handleTok args impl
+  else if cmd = "c13.mrule" then handleMrule args impl
   else if cmd = "c13.rename" then handleRename args impl
   else if cmd = "c13.move" then handleMove args impl
   else none
